@@ -200,7 +200,8 @@ func fnHRandField(ctx *cmdContext, args map[string]any) (output respValue, err e
 		if hasCount {
 			// as Redis: the negated count must be representable, and with
 			// WITHVALUES twice the count as well
-			if count == math.MinInt64 || (withValues && (count < -(math.MaxInt64/2) || count > math.MaxInt64/2)) {
+			// (and that many repeated fields must fit in a reply)
+			if count == math.MinInt64 || count < -math.MaxInt32 || (withValues && (count < -(math.MaxInt64/2) || count > math.MaxInt64/2)) {
 				output.data = respErrorString("ERR value is out of range")
 				return
 			}
